@@ -295,13 +295,14 @@ Definition f_member (f : filter) (key : bytes) : filter :=
   | Some v => if equals_true v then f else Some (or_star v (obj_member v key))
   end.
 
-(* filter[0UL] *)
+(* filter[0UL]: the "*" wildcard stands for members only; anything that is not an array has no
+   element filter (unbound = JNull) *)
 Definition f_element (f : filter) : filter :=
   match f with
   | None => None
   | Some v =>
       if equals_true v then f
-      else Some (or_star v (match v with JArr (x :: _) => Some x | _ => None end))
+      else Some (match v with JArr (x :: _) => x | _ => JNull end)
   end.
 
 (* ------------------------------------------------------------------------------------- *)
